@@ -535,6 +535,8 @@ def c_ctor_fresh(ctx, args):
         f = (lambda: CI_.CNOT(0, 1).forward_map) if k == 'CNOT' else ((lambda: CI_.C(seed % 24, 0).forward_map) if k == 'C' else (lambda: getattr(CI_, k)(0).forward_map))
     elif what == 'rotation_gate':
         f = lambda: CI_.clifford_rotation_gate(M.P(g)).generator
+    elif what in ('pauli_identity', 'pauli_zero'):
+        f = lambda: getattr(lib, what)(n)
     elif what == 'pauli_str':
         txt = {0: '', 1: 'i', 2: '-', 3: '-i'}[seed % 4] + ''.join('IXZY'[int(x) + 2 * int(z)] for x, z in zip(g[0][0::2], g[0][1::2]))
         f = lambda: lib.pauli(txt)
@@ -547,6 +549,8 @@ def c_ctor_fresh(ctx, args):
         return None
 
     def val(o):
+        if hasattr(o, 'cs'):
+            return [M.oPL(o), [[round(complex(c).real, 9), round(complex(c).imag, 9)] for c in o.cs]]
         if hasattr(o, 'gs'):
             return M.oST(o) if hasattr(o, 'r') else M.oPL(o)
         return M.oP(o)
@@ -554,7 +558,14 @@ def c_ctor_fresh(ctx, args):
         r1 = f()
         v1 = val(r1)
         # in-place update of the first result (what any user of the object may do)
-        if use == 'library' and hasattr(r1, 'gs') and int(r1.gs.shape[-1]) == 2 * n:
+        if hasattr(r1, 'cs'):
+            # a polynomial: the builder idiom set_cs(...) on the constructor's result ('library'), or direct writes to its arrays
+            if use == 'library':
+                r1.set_cs(r1.cs * 0.25)
+            else:
+                r1.cs[...] = r1.cs * 0.25 + 1
+                r1.ps[...] = (r1.ps + 2) % 4
+        elif use == 'library' and hasattr(r1, 'gs') and int(r1.gs.shape[-1]) == 2 * n:
             r1.rotate_by(M.P(gen.rpauli(rng, n, herm=True, nonzero=True)))
             # (a gate on the last qubit first: the torch circuit takes its width from the largest label)
             circ = M.build_circuit(n, [[0, [[n - 1], [2, 0]]]] + [[0, gen.rgate(rng, ctx.model, n, kinds=('gen', 'fwd', 'named'))] for _ in range(rng.randint(1, 4))])
@@ -578,6 +589,52 @@ def c_ctor_fresh(ctx, args):
     if v2 != v1:
         return {'kind': 'oracle', 'where': '%s:%s returns an object that shares data with an earlier result (second call sees the in-place update of the first)' % (be, what),
                 'observed': v2, 'expected': v1, 'tags': ['ctor_shared', be, what]}
+    return None
+
+
+def c_ctor_arg(ctx, args):
+    """an object built FROM another one (a rotation gate or a rotation map from a Pauli object, a state from a list of stabilizers) does not keep hold of it: updating the
+    argument in place afterwards -- rotation, masked rotation, direct writes -- changes nothing about the object built from it"""
+    be, what, n, seed = args
+    rng = __import__('random').Random(seed)
+    if be == 'np':
+        M, lib = NP, pc
+    else:
+        import vlib.impl_torch as TT, torchclifford as tc
+        M, lib = TT, tc
+    full = [[b for _ in range(n) for b in rng.choice([(1, 0), (0, 1), (1, 1)])], rng.choice([0, 2])]       # no identity factor: nothing to condense
+    part = gen.rpauli(rng, n, herm=True, nonzero=True)
+    g = full if seed % 2 == 0 else part
+    probe = gen.rplist(rng, n, 4)
+    if what == 'rotation_gate':
+        arg = M.P(g)
+        obj = lib.circuit.clifford_rotation_gate(arg)
+        view = lambda: [M.oP(obj.generator), [int(q) for q in obj.qubits], M.oPL(obj.forward(M.PL(probe)))]
+    elif what == 'rotation_map':
+        arg = M.P(g)
+        obj = lib.stabilizer.clifford_rotation_map(arg)
+        view = lambda: M.oPL(obj)
+    else:
+        m = gen.rmap(rng, ctx.model, n)
+        arg = M.PL([[m[2 * i + 1][0], rng.choice([0, 2])] for i in range(n) if rng.random() < 0.8] or [[m[1][0], 0]])
+        obj = lib.stabilizer_state(arg)
+        view = lambda: M.oST(obj)
+    before = view()
+    # the caller goes on using ITS object
+    arg.rotate_by(M.P(gen.rpauli(rng, n, herm=True, nonzero=True)))
+    if n >= 2:
+        k = rng.randint(1, n - 1)
+        mk = gen.rmask(rng, n, k)[0]
+        mask = np.array(mk, dtype=bool) if be == 'np' else __import__('torch').tensor([bool(b) for b in mk])
+        arg.rotate_by(M.P(gen.rpauli(rng, k, herm=True, nonzero=True)), mask=mask)
+    if hasattr(arg, 'gs'):
+        arg.gs[...] = 1 - arg.gs
+        arg.ps[...] = (arg.ps + 2) % 4
+    else:
+        arg.g[...] = 1 - arg.g
+    after = view()
+    if after != before:
+        return {'kind': 'oracle', 'where': '%s:%s changed when the object it was built from was updated in place' % (be, what), 'observed': str(after)[:400], 'expected': str(before)[:400], 'tags': ['ctor_arg', be, what]}
     return None
 
 
@@ -624,7 +681,7 @@ def c_obj_history(ctx, args):
     return history.reused_object_history(ctx, kind, n, seed, steps, which, be=be)
 
 
-CHECKS = {'obj_history': c_obj_history, 'plain_args': c_plain_args, 'empties': c_empties, 'ctor_fresh': c_ctor_fresh, 'copy': c_copy, 'query': c_query, 'inplace': c_inplace, 'torch_copy': c_torch_copy}
+CHECKS = {'ctor_arg': c_ctor_arg, 'obj_history': c_obj_history, 'plain_args': c_plain_args, 'empties': c_empties, 'ctor_fresh': c_ctor_fresh, 'copy': c_copy, 'query': c_query, 'inplace': c_inplace, 'torch_copy': c_torch_copy}
 
 
 def run(ctx):
@@ -648,6 +705,8 @@ def run(ctx):
         be = ['np', 'torch'][it % 2]
         do(ctx, 'obj_history', ['map', rng.randint(1, 4), rng.randrange(10 ** 6), rng.randint(4, 12), ['inverse', 'compose', 'to_state', 'copy'], be], nontrivial=('oh', be, it))
         do(ctx, 'obj_history', ['state', rng.randint(1, 4), rng.randrange(10 ** 6), rng.randint(4, 12), ['to_map', 'copy', 'expect', 'entropy'] + (['density_matrix'] if be == 'np' else []), be], nontrivial=('ohs', be, it))
+    for it in range(int(48 * B)):
+        do(ctx, 'ctor_arg', [['np', 'torch'][it % 2], ['rotation_gate', 'rotation_map', 'stabilizer_state'][(it // 2) % 3], rng.randint(1, 4), rng.randrange(10 ** 6)], nontrivial=('ca', it))
     # the rank kernels work in place on whatever they are handed: entropy on larger, mixed and pure states, every block region
     for _ in range(max(30, int(30 * B))):
         do(ctx, 'query', ['StabilizerState', 'entropy', rng.randint(3, 6), rng.randrange(10 ** 6)], nontrivial=('qe', ctx.res.evaluations))
